@@ -20,5 +20,6 @@ func controlsC08() []Control {
 		{Name: "gate time limit taken unguarded from the options", Expect: "R6", Mutate: replaceIn("(*tableEngine).CreateTable", "Timeout: 2,", "Timeout: te.options.OpenGameTimeout,", 0)},
 		{Name: "gate built without a time limit", Expect: "R6", Mutate: replaceIn("(*tableEngine).CreateTable", "Timeout: 2,", "Timeout: 0,", 0)},
 		{Name: "continue step returns early when the seat manager call succeeds", Expect: "R3", Mutate: replaceIn("(*tableEngine).continueGame", "playerState.Bankroll > 0); err != nil {", "playerState.Bankroll > 0); err == nil {", 0)},
+		{Name: "continue step waits the open-game timeout instead of the continue interval", Expect: "R3", Mutate: replaceIn("(*tableEngine).continueGame", "nextMoveInterval = te.options.GameContinueInterval", "nextMoveInterval = te.options.OpenGameTimeout", 0)},
 	}
 }
